@@ -284,7 +284,7 @@ def scenario(sid, rec):
     return {'id': sid, 'recipe': rec,
             'tags': {'kind': rec['kind'], 'family': rec['family'], 'driver': rec['driver'], 'elem': rec.get('elem') or '',
                      'dom': rec['variants'][0]['region']['dom'],
-                     'order': rec['order'] if rec.get('order') is not None else 'default'},
+                     'order': rec['order'] if rec.get('order') is not None else ('per-step' if rec['driver'] == 'sequence' else 'default')},
             'events': execute(rec)}
 
 
